@@ -1655,6 +1655,25 @@ def breakcycles_replay(cases):
                     f.add_name(nm, q["key"], f.LABEL_QUERY)
                 else:
                     f.add_name(nm, q["key"], f.LABEL_EVIDENCE_POS)
+            FKx = 1000000
+            evv = c.get("evv")
+            if evv == "propagate":
+                # what the default pipeline does (ClauseDBEngine.ground_evidence with propagate_evidence=True)
+                from problog.errors import InconsistentEvidenceError
+                f.lookup_evidence = {}
+                try:
+                    f.propagate([q["key"] for q in c["queries"] if q["phase"] == 2], f.lookup_evidence)
+                except InconsistentEvidenceError:
+                    rec["skip"] = "inconsistent evidence found by propagation"
+                    out.append(rec)
+                    continue
+            elif evv and any(v != -1 for v in evv):
+                f.lookup_evidence = {i + 1: (None if v == FKx else v) for i, v in enumerate(evv) if v != -1}
+            if hasattr(f, "lookup_evidence"):
+                rec["evv"] = [(-1 if (i + 1) not in f.lookup_evidence else (FKx if f.lookup_evidence[i + 1] is None else f.lookup_evidence[i + 1]))
+                              for i in range(len(c["src"]))]
+            else:
+                rec["evv"] = [-1] * len(c["src"])
             dag = LogicDAG()
             break_cycles(f, dag)
             res = []
